@@ -78,7 +78,7 @@ theorem add_plain (S : Schema) (st : St) (node : DNode) (atr : Attrs) (side : Bo
     cases h : sameInst S x node with
     | false => rfl
     | true => exact absurd (sameInst_kkey S x node hnd h) (hno x hx)
-  unfold St.add addAt
+  unfold St.add addAt newNode
   simp only [hnd, Bool.false_eq_true, if_false, hex, hnu, Bool.false_and, Bool.and_false, Bool.not_false, if_true]
   unfold St.emit
   constructor <;> (split <;> rfl)
@@ -123,7 +123,7 @@ theorem phase1Step_eq_p1 (S : Schema) (top : Bool) (recur : List DNode → List 
     (st : St) (a : DNode) (i : Nat) (hnu : S.isUserOrd a.sid = false) (hnd : S.isDupInst a.sid = false) :
     phase1Step S true top recur as bs st (a, i) = p1 S top recur bs st a := by
   have hst : ({ st with used := st.used } : St) = st := by cases st; rfl
-  unfold phase1Step p1
+  unfold phase1Step p1 phase1Plain
   simp only [Bool.not_true, Bool.and_false, Bool.false_eq_true, if_false, findMatch_true S bs a st.used hnd, hnu,
     findIdx_bind_get, hst]
   have hpe : List.find? (matchP S a) bs = partner S bs a := rfl
